@@ -57,7 +57,7 @@ PROPS['C04'] = dict(
 
 PROPS['C01'] = dict(
   level='proof',
-  verus=[dict(unit='ops', min_functions=20), dict(unit='native', min_functions=3), dict(unit='retops', min_functions=1), dict(unit='mapops', min_functions=1), dict(unit='iterops', min_functions=2), dict(unit='launchops', min_functions=1), dict(unit='funcc', min_functions=1), dict(unit='compilerd', min_functions=2), dict(unit='forc', min_functions=1), dict(unit='prattops', min_functions=8), dict(unit='prattloop', min_functions=1), dict(unit='calls', min_functions=4), dict(unit='scopec', min_functions=8), dict(unit='parserblk', min_functions=2), dict(unit='parserd', min_functions=6), dict(unit='limitsc', min_functions=2), dict(unit='parserret', min_functions=5), dict(unit='parserasg', min_functions=4), dict(unit='parserloop', min_functions=2), dict(unit='parserstmt', min_functions=1), dict(unit='parsertry', min_functions=1), dict(unit='launchc', min_functions=1), dict(unit='methodc', min_functions=2), dict(unit='literalc', min_functions=5), dict(unit='dispatchc', min_functions=3), dict(unit='dispatchvm', min_functions=1), dict(unit='basicvm', min_functions=1), dict(unit='operandvm', min_functions=3), dict(unit='rawstack', min_functions=6), dict(unit='popframe', min_functions=2)],
+  verus=[dict(unit='ops', min_functions=20), dict(unit='native', min_functions=3), dict(unit='retops', min_functions=1), dict(unit='mapops', min_functions=1), dict(unit='iterops', min_functions=2), dict(unit='launchops', min_functions=1), dict(unit='funcc', min_functions=1), dict(unit='compilerd', min_functions=2), dict(unit='forc', min_functions=1), dict(unit='prattops', min_functions=8), dict(unit='prattloop', min_functions=1), dict(unit='calls', min_functions=4), dict(unit='scopec', min_functions=8), dict(unit='parserblk', min_functions=2), dict(unit='parserd', min_functions=6), dict(unit='limitsc', min_functions=2), dict(unit='parserret', min_functions=5), dict(unit='parserasg', min_functions=4), dict(unit='parserloop', min_functions=2), dict(unit='parserstmt', min_functions=1), dict(unit='parsertry', min_functions=1), dict(unit='launchc', min_functions=1), dict(unit='methodc', min_functions=2), dict(unit='literalc', min_functions=5), dict(unit='dispatchc', min_functions=3), dict(unit='dispatchvm', min_functions=1), dict(unit='basicvm', min_functions=1), dict(unit='operandvm', min_functions=3), dict(unit='rawstack', min_functions=6), dict(unit='popframe', min_functions=2), dict(unit='blockc', min_functions=2)],
   kani=[dict(crate='front', harnesses=['proofs::o01_p_infix_table', 'proofs::o01_p_infix_action', 'proofs::o01_p_prefix_action', 'proofs::o01_p_higher', 'proofs::o01_p_prefix_table'], kind='complete', assumption_ids=['A-kani']),
         dict(crate='value', harnesses=['proofs::o14_6_falsey', 'proofs::o14_3_num_eq_ieee'], features='', kind='complete', assumption_ids=['A-kani']),
         dict(crate='value', harnesses=['proofs::o14_6_falsey', 'proofs::o14_3_num_eq_ieee'], features='nan_boxing', kind='complete', assumption_ids=['A-kani'])],
